@@ -101,6 +101,20 @@ def stages(tier, rng, only=None):
                                                             ([0, 8000000, 2, 1, 1, 3],
                                                              [8000000, 8000000, 0, 2, 2, 1], 1)],
         flags=(0,), namings=["ints", "letters", "collide"]), _nt))
+    def many_optima():
+        # opposite opinions over five elements: more than a hundred optimal consensus rankings (120 for two opposite
+        # permutations), all of them requested
+        ds = []
+        for k in range(6 if tier == "quick" else 30):
+            p = rng.sample(range(1, 6), 5)
+            D = [[[e] for e in p], [[e] for e in reversed(p)]]
+            if k % 3 == 1:
+                D = D + D
+            if k % 3 == 2:
+                D = [[[p[0], p[1]]] + [[e] for e in p[2:]], [[e] for e in reversed(p[2:])] + [[p[0], p[1]]]]
+            ds.append(D)
+        return ac.cases(ds, ["ExactCplex(noopt)"], [ac.P_UNI1, ac.P_UNI5, ac.P_IND1], flags=(0,), namings=["ints", "letters"])
+    out.append(ac.stage("many_optima", PID, many_optima, _nt))
     out.append(ac.stage("ids_from_tied_buckets", PID, lambda: ac.cases(
         [ac.tied_first(rng) for _ in range(80 if tier == "quick" else 800)],
         ["ExactCplex(opt)", "ExactOptim1", "ExactPulp"], SCHEMES, flags=(1,), namings=["scatter", "collide", "letters"])
